@@ -7,7 +7,8 @@ driver family `c18`: replay of an implementation event trace through the protoco
 (`-` = none; the diagnostics token of text `t` is `t` itself) and each token is one observed event:
 
 * `O:u:v:t` didOpen, `C:u:v:t` didChange, `S:u:t` didSave, `X:u` didClose, `R` request, `T` idle pass
-* `G:live:u1,u2,…` configuration response (`live` 0/1, relaunch order as logged, `-` = no document)
+* `G:live:u1,u2,…` configuration response, relaunch part (`live` 0/1, relaunch order as logged, `-` = no
+  document); `L` its lock part (not observable through the hooks, never emitted by the harness)
 * `A:id` job returned from `lock()` with the guard, `E:id` `lock()` returned `Err`
 * `F:id:r` job left the closure normally with `Some` (`r`=1) / `None` (`r`=0), `D:id` job panicked
 * `H:id:k` main loop popped job `id` (`k` = `p` joined `Ok(Some)`, `n` `Ok(None)`, `e` `Err`)
@@ -35,6 +36,7 @@ def replay1 (an : Text → Option Diags) (s : State) (tok : String) : Option Sta
   | ["S", u, t] => do step an s (.save (← u.toNat?) (← t.toNat?))
   | ["X", u] => do step an s (.close (← u.toNat?))
   | ["R"] => step an s .request
+  | ["L"] => step an s .configLock
   | ["T"] =>
     -- an idle pass: the front job, if any, must be unfinished
     match s.queue with
